@@ -158,25 +158,24 @@ Lemma look_stable s e m : (exists y, In y (ms_mts s) /\ mt_id y = m) ->
   look_of (fst (mstep c s e)) m = look_of s m.
 Proof.
   intros Hex Hw. destruct e as [b| |fid|levels|fs|fs|cid lo hi|cid o|cid]; cbn [mstep].
-  - cbn [fst]. unfold do_write.
-    assert (forall s0, ms_mem s0 = ms_mem s ->
-              look_of (fold_left (fun s kv => upd_mt (mt_insert (mkE (fst kv) (ms_seq s + 1)%N (snd kv))) (ms_mem s) s) b s0) m = look_of s0 m /\
-              ms_mem (fold_left (fun s kv => upd_mt (mt_insert (mkE (fst kv) (ms_seq s + 1)%N (snd kv))) (ms_mem s) s) b s0) = ms_mem s) as H.
-    { induction b as [|kv b IH]; intros s0 E0; cbn [fold_left]; [auto|].
-      destruct (IH (upd_mt (mt_insert (mkE (fst kv) (ms_seq s + 1)%N (snd kv))) (ms_mem s0) s0)) as [H1 H2]; [exact E0|].
-      split; [|exact H2]. rewrite H1. apply look_of_upd; [reflexivity|]. left. rewrite E0. now apply (Hw b0) || (apply (Hw _ eq_refl)). }
-    destruct (H s eq_refl) as [H1 _]. rewrite <- H1. apply look_of_mts. reflexivity.
+  - cbn [fst]. unfold do_write. cbv zeta. pose proof (Hw b eq_refl) as Hne. clear Hw.
+    assert (forall n s0, ms_mem s0 = ms_mem s ->
+              look_of (fold_left (fun s1 kv => upd_mt (mt_insert (mkE (fst kv) n (snd kv))) (ms_mem s1) s1) b s0) m = look_of s0 m) as H.
+    { intros n. induction b as [|kv b IH]; intros s0 E0; cbn [fold_left]; [reflexivity|].
+      rewrite IH by exact E0. apply look_of_upd; [reflexivity|]. left. rewrite E0. exact Hne. }
+    rewrite <- (H (ms_seq s + 1)%N s eq_refl). apply look_of_mts. reflexivity.
   - destruct (ms_imm s); cbn [fst]; [reflexivity|]. unfold do_rollover. cbv zeta.
     unfold look_of, find_mt. cbn [ms_mts upd_mt set_mts].
     destruct Hex as [y [Hy Hid]].
-    rewrite (find_map_keep (fun x => if N.eqb (mt_id x) (ms_mem s) then mt_add_store 1 x else x)) by (intros z; destruct (N.eqb (mt_id z) (ms_mem s)); reflexivity).
     destruct (find (fun x => N.eqb (mt_id x) m) (ms_mts s)) as [z|] eqn:E.
-    + erewrite find_app_l; [|rewrite (find_map_keep (fun x => if N.eqb (mt_id x) (ms_mem s) then mt_add_store 1 x else x)) by (intros w; destruct (N.eqb (mt_id w) (ms_mem s)); reflexivity); rewrite E; reflexivity].
-      cbn [option_map]. destruct (N.eqb (mt_id z) (ms_mem s)); reflexivity.
+    + rewrite (find_app_l _ _ _ (if N.eqb (mt_id z) (ms_mem s) then mt_add_store 1 z else z)).
+      * destruct (N.eqb (mt_id z) (ms_mem s)); reflexivity.
+      * rewrite (find_map_keep (fun x => if N.eqb (mt_id x) (ms_mem s) then mt_add_store 1 x else x))
+          by (intros w; destruct (N.eqb (mt_id w) (ms_mem s)); reflexivity). rewrite E. reflexivity.
     + exfalso. pose proof (find_none _ _ E y Hy) as Hn. cbn beta in Hn. rewrite Hid, N.eqb_refl in Hn. discriminate.
   - destruct (ms_imm s) as [im|]; cbn [fst]; [|reflexivity]. unfold do_flushdone. cbv zeta.
-    rewrite !look_of_upd by (try (intros y; apply (drop_store_id c)); right; intros y; apply (drop_store_ents c)).
-    unfold clear_imm. rewrite (look_of_mts _ (install_new (flush_levels fid im s) s)) by reflexivity.
+    rewrite !look_of_upd; try (intros y; apply (drop_store_id c)); try (right; intros y; apply (drop_store_ents c)).
+    transitivity (look_of (install_new (flush_levels fid im s) s) m); [apply look_of_mts; reflexivity|].
     apply frame_look. apply install_new_frame.
   - cbn [fst]. apply frame_look. apply install_new_frame.
   - cbn [fst]. now apply look_of_mts.
@@ -196,7 +195,7 @@ Proof.
   - destruct (find_scan s cid) as [sc|]; [|reflexivity]. cbn [fst]. unfold do_close. cbv zeta.
     set (s1 := set_scans s _).
     assert (look_of (fold_left (fun s m => upd_mt (mt_drop_iter c) m s) (sc_mems sc) s1) m = look_of s m) as E2.
-    { rewrite look_of_fold by (intros y; [apply (drop_iter_id c)|apply (drop_iter_ents c)]). now apply look_of_mts. }
+    { rewrite look_of_fold; [now apply look_of_mts|intros y; apply (drop_iter_id c)|intros y; apply (drop_iter_ents c)]. }
     destruct (sc_holds sc); [|exact E2]. rewrite (frame_look _ _ m (proj1 (vref_drop_frame _ _))). exact E2.
 Qed.
 End Look.
